@@ -1,5 +1,5 @@
 (* C14: FilterPMTPacketsToPids = packetisation of the serialised section of the kept streams. *)
-From Gots Require Import Base.Prelude Model.Psi Model.Pmt Spec.PmtSpec Proofs.PmtBase Proofs.PmtParse Proofs.PmtTables Proofs.PmtRead Proofs.PmtMisc.
+From Gots Require Import Base.Prelude Model.Psi Model.Pmt Spec.PmtSpec Proofs.PmtBase Proofs.PmtParse Proofs.PmtTables Proofs.PmtRead Proofs.PmtMisc Proofs.PmtRemove.
 Import Pmt.
 Local Open Scope N_scope.
 
@@ -293,7 +293,6 @@ Proof. induction l as [|a t IH]; [split; [intros _ x []|reflexivity]|]. cbn [fil
   - split; [discriminate|]. intros H. specialize (H a (or_introl eq_refl)). congruence.
   - rewrite IH. split; [intros H x [<-|Hx]; [exact E|apply H; exact Hx]|intros H x Hx; apply H; right; exact Hx]. Qed.
 
-Definition requested_ok (have : list N) (pmt_pid x : N) : Prop := In x have \/ x = 0 \/ x = pmt_pid.
 Lemma missing_pred have pmt_pid x :
   (negb (existsb (N.eqb x) have) && negb (x =? 0) && negb (x =? pmt_pid)) = false <-> requested_ok have pmt_pid x.
 Proof. unfold requested_ok. rewrite !andb_false_iff, !negb_false_iff, !N.eqb_eq, existsb_exists. split.
@@ -415,3 +414,50 @@ Theorem filtered_sec_all s want : (forall e, In e (sstreams s) -> In (epid e) wa
   ser_sec_nocrc (filtered_sec s want) = ser_sec_nocrc s /\
   crc (filtered_sec s want) = crc_model (ser_sec_nocrc s).
 Proof. intros H. unfold filtered_sec. rewrite (keep_streams_all want (sstreams s) H). split; reflexivity. Qed.
+
+(* ---------- the three-way contract in the property's words (corollaries of filter_ok) ---------- *)
+Section Contract.
+Variables (c : carrier) (pid : N) (items : list item) (want : list N).
+Hypothesis WC : wf_carrier c.
+Hypothesis PR : pre c = [].
+Hypothesis AM : all_mine items.
+Hypothesis WI : Forall (wf_item pid) items.
+Hypothesis EQ : concat (chunks items) = ser_payload c.
+Hypothesis WN : want <> [].
+Let have := map epid (sstreams (sec c)).
+Let out := spec_repack (hdrs_of pid true items)
+             (ser_unit {| pf := pf c; pre := []; sec := filtered_sec (sec c) want; stuffing := 0 |}).
+
+(* every requested PID is in the PMT (or is the PAT / PMT PID): packets, no error *)
+Theorem filter_all_present : (forall x, In x want -> requested_ok have pid x) ->
+  filter_pmt_packets (ser_items pid true items) want = Ok (Some out, None).
+Proof. intros H. rewrite (filter_ok c pid items want WC PR AM WI EQ WN). cbv zeta. fold have.
+  apply missing_nil_iff in H. rewrite H. rewrite len_nil.
+  destruct want as [|w0 wt]; [congruence|]. rewrite len_cons.
+  replace (0 =? 1 + len wt) with false by lia. reflexivity. Qed.
+
+(* none of the requested PIDs is (as the code counts it: every request, with multiplicity, is missing): no packets, error naming all *)
+Theorem filter_none_present : (forall x, In x want -> ~ requested_ok have pid x) ->
+  filter_pmt_packets (ser_items pid true items) want = Ok (None, Some want).
+Proof. intros H. rewrite (filter_ok c pid items want WC PR AM WI EQ WN). cbv zeta. fold have.
+  assert (M: missing_of have pid want = want).
+  { unfold missing_of. apply filter_all_true. intros x Hx.
+    destruct (negb (existsb (N.eqb x) have) && negb (x =? 0) && negb (x =? pid)) eqn:E; [reflexivity|].
+    exfalso. apply (H x Hx). apply missing_pred. exact E. }
+  rewrite M, N.eqb_refl. reflexivity. Qed.
+
+(* some but not all: packets AND an error naming exactly the missing ones, in request order *)
+Theorem filter_some_present :
+  (exists x, In x want /\ requested_ok have pid x) -> (exists x, In x want /\ ~ requested_ok have pid x) ->
+  exists missing, missing <> [] /\ missing = missing_of have pid want /\
+    filter_pmt_packets (ser_items pid true items) want = Ok (Some out, Some missing).
+Proof. intros (x1 & I1 & R1) (x2 & I2 & R2). exists (missing_of have pid want).
+  assert (NN: missing_of have pid want <> []).
+  { intros E. rewrite missing_nil_iff in E. exact (R2 (E x2 I2)). }
+  assert (NA: len (missing_of have pid want) <> len want).
+  { intros E. rewrite missing_all_iff in E. exact (E x1 I1 R1). }
+  split; [exact NN|]. split; [reflexivity|].
+  rewrite (filter_ok c pid items want WC PR AM WI EQ WN). cbv zeta. fold have.
+  replace (len (missing_of have pid want) =? len want) with false by (symmetry; apply N.eqb_neq; exact NA).
+  destruct (missing_of have pid want); [congruence|reflexivity]. Qed.
+End Contract.
